@@ -32,7 +32,8 @@ PROPS = {
                 explanation="[P] T1-T6, U8a, F3 over ghost scope stack tied to _current_scope/_parent by REP; rule-call protocol G3 assumed for callees",
                 enum=["enum_registries.py --only C09", ("enum_frame.py", ["frame.inventory", "frame.scope_calls"]),
                       ("enum_block_table.py", ["F12.table#start", "F12.table#flags", "F12.table#labelled"])],
-                witnesses=["c09_internal_syntax_error_leaves_scope", "c09_main_program0_leaves_scope", "c09_failing_parse_removes_existing_table"]),
+                witnesses=["c09_internal_syntax_error_leaves_scope", "c09_main_program0_leaves_scope", "c09_failing_parse_removes_existing_table",
+                           "c09_tables_of_earlier_units_remain_after_failure"]),
     "C08": dict(level="other", enum=["enum_block_table.py", "bounded_trees.py --only C08"],
                 claim="BlockBase.match proved to return a block with an end class only if its END was found with agreeing names and labels "
                       "(when the caller asks for the check); call-site table of the 35 block rules enumerated against the constructs named in the "
@@ -75,19 +76,19 @@ PROPS = {
                       "BlockBase.match); cpp-directive items carry the exact span of the lines taken",
                 trusted=TRUSTED,
                 explanation="[P] R7, R9a, U3b, U8b, R14 integers; delivery half of free/fixed statements not yet under contract",
-                witnesses=["c14_directive_backslash_at_eof"]),
+                witnesses=["c14_directive_backslash_at_eof", "c14_directive_with_semicolon", "c14_directive_before_anonymous_main_program"]),
     "C14": dict(level="other", enum=["bounded_trees.py --only C14"],
                 claim="a '#' line is recognised exactly when its first non-blank character is '#' (not pyf); the reader's directive branch returns "
                       "one CppDirective item whose span is the physical lines taken, without exception at end of input",
                 trusted=TRUSTED,
                 explanation="[P] R13, R14; Cpp_* round trip and match_cpp_directive not yet under contract",
-                witnesses=["c14_directive_backslash_at_eof"]),
+                witnesses=["c14_directive_backslash_at_eof", "c14_directive_with_semicolon", "c14_directive_before_anonymous_main_program"]),
     "C18": dict(level="other", enum=["bounded_trees.py --only C18"],
                 claim="deep-copy protocol: Base.__getnewargs__ returns (string, None, True) and every class with its own __new__ (Base, Comment, "
                       "Directive; Program delegates) returns a fresh uninitialised instance for those arguments without touching a reader",
                 trusted=TRUSTED + "; CPython copy/pickle protocol (reconstruction through __new__(*__getnewargs__()) then __dict__ copy)",
                 explanation="[P] U3a, U4, F4 deep-copy exits and the HAS_STRING invariant of Comment/Directive.init",
-                witnesses=["c18_deepcopy_with_comment"]),
+                witnesses=["c18_deepcopy_with_comment", "c18_tree_from_file_reader_cannot_be_copied"]),
     "C20": dict(level="other", enum=["bounded_trees.py --only C20"],
                 claim="mechanisms that keep parsing effort polynomial: the per-item parse cache evaluates a string rule at most once per (item, class) "
                       "(ghost evaluation counter), the labelled-DO early abort restores the reader and returns at once",
